@@ -44,12 +44,14 @@ RULE = (
     "Second tier ('tier':'xfer', full logged-in SoulSeekClient, confirming server): <=12 ops from {add a download "
     "(left VIRGIN, paused, or queued towards an unreachable peer) in one of 3 slots for u0/u1, abort, pause, queue, "
     "remove, track_user/untrack_user with REQUESTED or FRIEND, server EOF/reset/failing write, re-login (Network.connect_server + "
-    "login)} with gaps 0..3 s; the TRANSFER reason is owned by the real TransferManager. At every quiescent point "
+    "login)} with gaps 0..3 s; the TRANSFER reason is owned by the real TransferManager. In 4 of 10 cases the FRIEND reason is owned by the friend list instead of the API: initial settings.users.friends, ops fadd/fdel (in-place .add/.discard) and fset (assignment) for u0..u2, gaps up to 7 s, and an application FriendListChangedEvent listener that sleeps 0.1..2 s registered before or after the library listeners; a sync flag makes the next op land while that listener is suspended. "
+    "At every quiescent point "
     "while logged in (>= 1.5 s after the last op, >= 22 s after a re-login) and at the end (after a re-login if "
     "needed), per user: reasons = user-API reasons since the last close | TRANSFER iff client.transfers holds an "
-    "unfinished transfer of that user; get_tracking_flags == reasons; the AddUser/RemoveUser frames of the *current* "
+    "unfinished transfer of that user | FRIEND iff the name is in settings.users.friends (checkpoint only >= 2 x listener sleep + 1.6 s after the last list change); get_tracking_flags == reasons; the AddUser/RemoveUser frames of the *current* "
     "server session alternate and end with AddUser iff reasons is non-empty; state TRACKED iff non-empty. Non-trivial "
-    "there = a re-login, TRANSFER combined with an API reason, or a removed transfer."
+    "there = a re-login, TRANSFER combined with an API reason, a removed transfer, or a friend-list change made while the "
+    "application listener was suspended."
 )
 ASSUMPTIONS = [
     "every delivery has strictly positive latency (>= 0.5 ms); calls are issued by one driver task, so issue order is total",
@@ -67,6 +69,7 @@ ASSUMPTIONS = [
     "observation only",
     "xfer tier: a write failure is provoked at once by the AddUser of a dummy user; no calls within 0.3 s after the break; downloads never "
     "finish on their own (peer without address), so 'unfinished' only changes through the generated ops; on a later "
+    "friend-list cases: the user API only handles REQUESTED (the FRIEND bit has one owner); on a later "
     "session one leading RemoveUser is tolerated (a reason added while disconnected, whose AddUser was silently not "
     "sent, and removed again); no checkpoints while disconnected",
 ]
@@ -886,7 +889,10 @@ XFER_SLOTS = 3
 XFER_GAPS = [0.0, 0.01, 0.06, 0.3, 1.5, 1.5, 3.0]
 XFER_SETTLE = 1.5            # a checkpoint needs this much quiet time (management cycle <= 0.25 s, AddUser round trip)
 XFER_LOGIN_SETTLE = 22.0     # a worker started while disconnected reaches the new session with its next retry (<= 20 s)
-XFER_OPS = ['add', 'abort', 'remove', 'pause', 'queue', 't', 'u', 'x', 'login']
+XFER_OPS = ['add', 'abort', 'remove', 'pause', 'queue', 't', 'u', 'x', 'login', 'fadd', 'fdel', 'fset']
+XFER_FRIEND_GAPS = [0.0, 0.06, 0.3, 0.3, 1.5, 1.5, 3.0, 7.0]
+XFER_LISTENER_SLEEPS = [0.0, 0.1, 0.5, 1.0, 2.0]    # application FriendListChangedEvent listener that suspends
+FRIEND_BIT = 4
 XFER_MODES = ['virgin', 'paused', 'queued']
 TRANSFER_BIT = 2
 
@@ -897,9 +903,17 @@ def xfer_strategy(draw):
     slots = {}           # slot -> user (generator-side plausibility only)
     logged_in = True
     n = draw(st.integers(2, 10))
+    friendly = draw(st.integers(0, 9)) < 4      # the FRIEND reason comes from settings.users.friends in these cases
     for _ in range(n):
         w = draw(st.integers(0, 19))
-        gap = draw(st.sampled_from(XFER_GAPS))
+        gap = draw(st.sampled_from(XFER_FRIEND_GAPS if friendly else XFER_GAPS))
+        if friendly and draw(st.integers(0, 1)):
+            kind = draw(st.sampled_from(['fadd', 'fadd', 'fdel', 'fdel', 'fset']))
+            op = {'op': kind, 'u': draw(st.integers(0, 2)), 'gap': gap, 'sync': draw(st.integers(0, 2)) == 0}
+            if kind == 'fset':
+                op['mask'] = draw(st.integers(0, 7))
+            ops.append(op)
+            continue
         if w < 5 or not slots:
             free = [k for k in range(XFER_SLOTS) if k not in slots]
             if free:
@@ -917,7 +931,7 @@ def xfer_strategy(draw):
             ops.append({'op': 'remove', 'slot': k, 'gap': gap})
         elif w < 14:
             ops.append({'op': draw(st.sampled_from(['t', 't', 'u'])), 'u': draw(st.integers(0, 1)),
-                        'f': draw(st.sampled_from([1, 4])), 'gap': gap})
+                        'f': 1 if friendly else draw(st.sampled_from([1, 4])), 'gap': gap})
         elif logged_in and w < 18:
             logged_in = False
             ops.append({'op': 'x', 'k': draw(st.integers(0, 2)), 'gap': gap})
@@ -925,8 +939,14 @@ def xfer_strategy(draw):
             logged_in = True
             ops.append({'op': 'login', 'gap': gap})
         else:
-            ops.append({'op': 'u', 'u': draw(st.integers(0, 1)), 'f': draw(st.sampled_from([1, 4])), 'gap': gap})
-    return {'tier': 'xfer', 'lat': draw(st.sampled_from([0.001, 0.02])), 'ops': ops}
+            ops.append({'op': 'u', 'u': draw(st.integers(0, 1)), 'f': 1 if friendly else draw(st.sampled_from([1, 4])),
+                        'gap': gap})
+    case = {'tier': 'xfer', 'lat': draw(st.sampled_from([0.001, 0.02])), 'ops': ops}
+    if friendly:
+        case['friends0'] = draw(st.sampled_from([0, 0, 1, 3, 5, 7]))
+        case['ld'] = draw(st.sampled_from(XFER_LISTENER_SLEEPS))
+        case['lprio'] = draw(st.integers(0, 1))
+    return case
 
 
 def _sanitise_xfer(case):
@@ -935,7 +955,7 @@ def _sanitise_xfer(case):
     for o in (raw if isinstance(raw, list) else [])[:12]:
         if not isinstance(o, dict) or o.get('op') not in XFER_OPS:
             continue
-        op = {'op': o['op'], 'gap': _num(o.get('gap', 0.0), 0.0, 5.0, 0.0),
+        op = {'op': o['op'], 'gap': _num(o.get('gap', 0.0), 0.0, 8.0, 0.0),
               'slot': _num(o.get('slot', 0), 0, 10 ** 6, 0, int) % XFER_SLOTS,
               'u': _num(o.get('u', 0), 0, 10 ** 6, 0, int) % len(USERS)}
         if op['op'] == 'add':
@@ -944,8 +964,18 @@ def _sanitise_xfer(case):
             op['f'] = 4 if _num(o.get('f', 1), 0, 10 ** 6, 1, int) & 4 else 1      # REQUESTED or FRIEND, never TRANSFER
         elif op['op'] == 'x':
             op['k'] = _num(o.get('k', 0), 0, 10 ** 6, 0, int) % len(DISC_KINDS)    # eof | reset | failing write
+        elif op['op'] in ('fadd', 'fdel', 'fset'):
+            op['mask'] = _num(o.get('mask', 0), 0, 10 ** 6, 0, int) & 7
+            op['sync'] = bool(o.get('sync', False))
         ops.append(op)
-    return {'lat': _num(case.get('lat', 0.02), 0.0005, 0.05, 0.02), 'ops': ops}
+    friends0 = _num(case.get('friends0', 0), 0, 10 ** 6, 0, int) & 7
+    if friends0 or any(o['op'] in ('fadd', 'fdel', 'fset') for o in ops):
+        # the FRIEND bit is owned by the friend list in these cases: the user API only handles REQUESTED
+        for o in ops:
+            if o['op'] in ('t', 'u'):
+                o['f'] = 1
+    return {'lat': _num(case.get('lat', 0.02), 0.0005, 0.05, 0.02), 'ops': ops, 'friends0': friends0,
+            'ld': _num(case.get('ld', 0.0), 0.0, 2.0, 0.0), 'lprio': _num(case.get('lprio', 0), 0, 1, 0, int)}
 
 
 def _run_xfer_case(case) -> CaseResult:
@@ -954,6 +984,7 @@ def _run_xfer_case(case) -> CaseResult:
     ops = norm['ops']
     if not ops:
         return res
+    from aioslsk.events import FriendListChangedEvent
     from aioslsk.exceptions import InvalidStateTransition
     from aioslsk.protocol.messages import AddUser, RemoveUser
     from aioslsk.transfer.model import Transfer, TransferDirection
@@ -968,9 +999,32 @@ def _run_xfer_case(case) -> CaseResult:
         loop = world.loop
         server = world.server
         server.listener.latency = lat
-        client = await world.start_client(simworld.mk_settings('me'))
+        settings = simworld.mk_settings('me')
+        settings.users.friends = {USERS[i] for i in range(len(USERS)) if norm['friends0'] >> i & 1}
+        client = world.make_client(settings)
+        ld = norm['ld']
+        listener = {'active': 0, 'starts': 0}
+
+        async def app_friend_listener(event):
+            # an application listener that suspends (stores the list, asks the UI, ...)
+            listener['active'] += 1
+            listener['starts'] += 1
+            try:
+                await asyncio.sleep(ld)
+            finally:
+                listener['active'] -= 1
+        if ld > 0:
+            # documented EventBus priority: before (50) or after (150) the library's own listeners (100)
+            client.events.register(FriendListChangedEvent, app_friend_listener, priority=50 if norm['lprio'] else 150)
+            labels.add('suspending-friend-listener:%s' % ('before-library' if norm['lprio'] else 'after-library'))
+        await client.start()
+        await client.login()
         um, tm = client.users, client.transfers
+        friends = client.settings.users.friends
         await asyncio.sleep(1.0)
+        friend_quiet = 2 * ld + 1.6      # running listener + 1 s job interval + next delivery (+ its listener)
+        last_friend_op = -1e9
+        friend_op_in_listener = {}   # user -> the last friend-list change of that user was made while the listener slept
 
         api = [0] * len(USERS)       # user API reasons since the tracking state was last dropped
         slots = {}                   # slot -> Transfer
@@ -996,18 +1050,25 @@ def _run_xfer_case(case) -> CaseResult:
                     continue
                 mine = [t for t in tm.transfers if t.username == name]
                 unfinished = [t for t in mine if not t.is_finalized()]
-                reasons = api[u_idx] | (TRANSFER_BIT if unfinished else 0)
+                reasons = api[u_idx] | (TRANSFER_BIT if unfinished else 0) | (
+                    FRIEND_BIT if name in client.settings.users.friends else 0)
                 flags = um.get_tracking_flags(name).value
                 state = um.get_tracking_state(name).value
                 frames = session_frames(name)
                 types = [k for _, k in frames]
-                ctx = '%s at %s (t=%.3f, session #%d): transfers %s, user-API reasons %d, get_tracking_flags=%d, ' \
-                      'state=%s, AddUser/RemoveUser on this session %s' % (
+                ctx = '%s at %s (t=%.3f, session #%d): transfers %s, user-API reasons %d, settings.users.friends %s, ' \
+                      'get_tracking_flags=%d, state=%s, AddUser/RemoveUser on this session %s' % (
                           name, where, loop.time(), cur, [(t.remote_path[-5:], t.state.VALUE.name) for t in mine],
-                          api[u_idx], flags, state, frames)
+                          api[u_idx], sorted(client.settings.users.friends), flags, state, frames)
                 if flags != reasons:
                     blamed.add(name)
                     diff = flags ^ reasons
+                    if diff == FRIEND_BIT:
+                        found.append(('C15/xfer:friend-reason-%s:%s' % (
+                            'missing' if reasons & FRIEND_BIT else 'kept',
+                            'list-changed-while-listener-suspended' if friend_op_in_listener.get(name) else 'other'),
+                            ctx))
+                        continue
                     if diff == TRANSFER_BIT and unfinished:
                         found.append(('C15/xfer:transfer-reason-missing:%s' % (
                             'after-relogin' if cur > 0 else 'first-session'), ctx))
@@ -1103,11 +1164,36 @@ def _run_xfer_case(case) -> CaseResult:
                     login_time = loop.time()
                     labels.add('relogin')
                     gap = max(gap, XFER_LOGIN_SETTLE)
+            elif kind in ('fadd', 'fdel', 'fset'):
+                # the documented way: change settings.users.friends in place (or assign a new set); the user
+                # management job notices the difference and announces it with a FriendListChangedEvent
+                name = USERS[op['u']]
+                before = set(client.settings.users.friends)
+                if kind == 'fadd':
+                    client.settings.users.friends.add(name)
+                elif kind == 'fdel':
+                    client.settings.users.friends.discard(name)
+                else:
+                    client.settings.users.friends = {USERS[b] for b in range(len(USERS)) if op['mask'] >> b & 1}
+                for changed in before ^ set(client.settings.users.friends):
+                    friend_op_in_listener[changed] = bool(listener['active'])
+                    if listener['active']:
+                        labels.add('friend-list-changed-while-listener-suspended')
+                    last_friend_op = loop.time()
+                labels.add('friend-list:' + kind)
+                if op['sync'] and ld > 0:
+                    # let the next change land inside the listener that is delivering this one
+                    starts = listener['starts']
+                    limit = loop.time() + ld + 1.3
+                    while listener['starts'] == starts and loop.time() < limit:
+                        await asyncio.sleep(0.05)
+                    gap = min(gap, ld * 0.5)
             quiet_since = loop.time()
             if gap > 0:
                 await asyncio.sleep(gap)
             if logged_in and gap >= XFER_SETTLE and loop.time() - login_time >= (
-                    XFER_LOGIN_SETTLE if len(server.sessions) > 1 else XFER_SETTLE):
+                    XFER_LOGIN_SETTLE if len(server.sessions) > 1 else XFER_SETTLE) and \
+                    loop.time() - last_friend_op >= friend_quiet:
                 checkpoint('op #%d %s' % (i, kind))
 
         if not logged_in:
@@ -1115,7 +1201,8 @@ def _run_xfer_case(case) -> CaseResult:
             await client.login()
             login_time = loop.time()
             labels.add('relogin')
-        wait = max(XFER_SETTLE + 0.5, (XFER_LOGIN_SETTLE if len(server.sessions) > 1 else 0.0) - (loop.time() - login_time))
+        wait = max(XFER_SETTLE + 0.5, (XFER_LOGIN_SETTLE if len(server.sessions) > 1 else 0.0) - (loop.time() - login_time),
+                   friend_quiet + 0.5 - (loop.time() - last_friend_op))
         await asyncio.sleep(wait)
         checkpoint('end')
         info['loop_errors'] = list(loop.errors)
@@ -1132,7 +1219,8 @@ def _run_xfer_case(case) -> CaseResult:
     for e in info.get('loop_errors', []):
         res.violate('C15/xfer:loop-error:%s' % e.get('exc_type'), str(e)[:400])
         break
-    res.nontrivial = 'relogin' in labels or 'transfer-and-api-reason' in labels or 'remove-unfinished' in labels
+    res.nontrivial = 'relogin' in labels or 'transfer-and-api-reason' in labels or 'remove-unfinished' in labels or \
+        'friend-list-changed-while-listener-suspended' in labels
     res.label('tier:xfer', *sorted(labels))
     return res
 
@@ -1181,6 +1269,36 @@ def _enumerated_xfer_cases():
 
 # ---------------------------------------------------------------------------
 # enumerations
+
+def _enumerated_friend_cases():
+    """settings.users.friends changed in place while an application FriendListChangedEvent listener is suspended."""
+    out = []
+    seconds = [
+        [{'op': 'fadd', 'u': 1}], [{'op': 'fdel', 'u': 0}], [{'op': 'fset', 'mask': 6}],
+        [{'op': 'fdel', 'u': 0}, {'op': 'fadd', 'u': 0}], [{'op': 'fadd', 'u': 1}, {'op': 'fdel', 'u': 1}],
+    ]
+    for ld in (0.5, 2.0):
+        for lprio in (0, 1):
+            for friends0 in (0, 4):
+                for second in seconds:
+                    for sync, gap in ((True, 3.0), (False, 1.5), (False, 0.3)):
+                        ops = [{'op': 'fadd', 'u': 0, 'gap': gap, 'sync': sync}]
+                        for k, o in enumerate(second):
+                            ops.append(dict(o, gap=7.0 if k == len(second) - 1 else 0.06, sync=False))
+                        ops.append({'op': 'fdel', 'u': 0, 'gap': 7.0, 'sync': False})
+                        out.append({'tier': 'xfer', 'lat': 0.02, 'ld': ld, 'lprio': lprio, 'friends0': friends0, 'ops': ops})
+    for k in (0, 1, 2):
+        # friends across a disconnect: re-announced by the session initialisation, changes made while disconnected
+        out.append({'tier': 'xfer', 'lat': 0.02, 'ld': 0.5, 'lprio': 0, 'friends0': 3, 'ops': [
+            {'op': 'add', 'slot': 0, 'u': 0, 'mode': 'paused', 'gap': 1.5},
+            {'op': 'x', 'k': k, 'gap': 0.3},
+            {'op': 'fdel', 'u': 1, 'gap': 0.3, 'sync': False},
+            {'op': 'fadd', 'u': 2, 'gap': 0.3, 'sync': False},
+            {'op': 'login', 'gap': 0.0},
+            {'op': 'fdel', 'u': 0, 'gap': 7.0, 'sync': True},
+            {'op': 'abort', 'slot': 0, 'gap': 1.5}]})
+    return out
+
 
 def _enumerated_cases():
     out = []
@@ -1256,7 +1374,8 @@ def _enumerated_glue_cases():
 
 
 def run_shard(ctx):
-    ctx.enumerate(_enumerated_cases() + _enumerated_xfer_cases() + _enumerated_glue_cases())
+    ctx.enumerate(_enumerated_cases() + _enumerated_xfer_cases() + _enumerated_glue_cases() +
+                  _enumerated_friend_cases())
     n = 700 if ctx.tier == 'quick' else 20000
     # the transfer-manager tier first: it is the cheaper one and must not be starved by the wall-clock budget
     ctx.explore(xfer_strategy(), 150 if ctx.tier == 'quick' else 4000, salt=1)
